@@ -131,9 +131,15 @@ def feeBps (cx : NumCtx) (env : Env) (tok : String) (usdgAmount : Rat) (increase
 def afterFee (cx : NumCtx) (amount fee : Rat) : Rat :=
   cx.sub amount (cx.div (cx.mul amount fee) (Gen.gmxBpsDivisor : Rat))
 
-/-- `amount * 10**decimal * price / 10**30`, rounded down to an integer -/
-def toUsdg (cx : NumCtx) (amount : Rat) (dec : Nat) (price : Rat) : Except Err Rat :=
-  qdown (cx.div (cx.mul (cx.mul amount ((10 : Rat) ^ dec)) price) (Gen.gmxBuyUsdgDivisor : Rat))
+/-- `Vault.adjustForDecimals` (`_adjust_for_decimals`): `amount * 10**decimalMul / 10**decimalDiv` -/
+def adjustDecimals (cx : NumCtx) (amount : Rat) (decDiv decMul : Nat) : Rat :=
+  cx.div (cx.mul amount ((10 : Rat) ^ decMul)) ((10 : Rat) ^ decDiv)
+
+/-- `amount * 10**decimal * price / 10**30` rounded down to an integer (token wei × price), then adjusted from the
+    token's decimals to USDG's 18 and rounded down again -/
+def toUsdg (cx : NumCtx) (amount : Rat) (dec : Nat) (price : Rat) : Except Err Rat := do
+  let u ← qdown (cx.div (cx.mul (cx.mul amount ((10 : Rat) ^ dec)) price) (Gen.gmxBuyUsdgDivisor : Rat))
+  qdown (adjustDecimals cx u dec Gen.gmxUsdgDecimals)
 
 /-- `buy_usdg`: USDG (wei) minted for `amount` tokens, and the fee in basis points -/
 def buyUsdg (cx : NumCtx) (env : Env) (tok : String) (dec : Nat) (amount : Rat) : Except Err (Rat × Rat × FeeBranch) :=
@@ -158,13 +164,15 @@ def addLiquidity (cx : NumCtx) (env : Env) (tok : String) (dec : Nat) (amount : 
   let m ← qdown m
   pure (m, fee, br)
 
-/-- `sell_usdg`: token amount (wei, not rounded) redeemed for `usdg` -/
-def sellUsdg (cx : NumCtx) (env : Env) (tok : String) (usdg : Rat) : Except Err (Rat × Rat × FeeBranch) :=
+/-- `sell_usdg`: token amount (token wei, not rounded) redeemed for `usdg`: `get_redemption_amount` (USDG / price, adjusted
+    from USDG's 18 decimals to the token's) less the fee -/
+def sellUsdg (cx : NumCtx) (env : Env) (tok : String) (dec : Nat) (usdg : Rat) : Except Err (Rat × Rat × FeeBranch) :=
   match env.row? tok with
   | none => .error .key
   | some r => do
     let price := cx.div r.price (Gen.gmxPricePrecision : Rat)
     let redemption ← ddiv cx usdg price
+    let redemption := adjustDecimals cx redemption Gen.gmxUsdgDecimals dec
     let (fee, br) ← feeBps cx env tok usdg false
     pure (afterFee cx redemption fee, fee, br)
 
@@ -173,7 +181,7 @@ def removeLiquidity (cx : NumCtx) (env : Env) (tok : String) (dec : Nat) (glpAmo
   let aumU ← aumInUsdg cx env Gen.gmxAumDivisorRemove
   let perSupply ← ddiv cx (cx.mul glpAmount ((10 : Rat) ^ Gen.gmxGlpDecimals)) env.glpSupply
   let usdg ← qdown (cx.mul perSupply aumU)
-  let (out, fee, br) ← sellUsdg cx env tok usdg
+  let (out, fee, br) ← sellUsdg cx env tok dec usdg
   pure (cx.div out ((10 : Rat) ^ dec), fee, br)
 
 /-- wallet key of a token: `TokenInfo.name` is upper-cased, the data columns are lower-case -/
